@@ -9,6 +9,7 @@ import (
 	"sync"
 	"sync/atomic"
 
+	"github.com/tychoish/fun"
 	"github.com/tychoish/fun/adt"
 	"verif/harness/rt"
 )
@@ -71,6 +72,16 @@ func (l *log) add(ev map[string]any) {
 }
 
 var keyNames = []string{"a", "b", "c"}
+
+// accReg presents an accessor pair as a register (Swap is never used on it)
+type accReg struct {
+	get fun.Future[int]
+	set fun.Handler[int]
+}
+
+func (r accReg) Load() int    { return r.get() }
+func (r accReg) Store(v int)  { r.set(v) }
+func (r accReg) Swap(int) int { panic("not used") }
 
 var curProcs = -1
 var procsFor, nextProcs int
@@ -168,7 +179,7 @@ func trial(kind string, rng *rand.Rand) []map[string]any {
 			}
 			return map[string]any{"ev": "final", "n": m.Len(), "items": items, "runs": []string{}}
 		}
-	case "atomic", "sync", "casduel":
+	case "atomic", "sync", "casduel", "acc":
 		var a interface {
 			Load() int
 			Store(int)
@@ -178,7 +189,19 @@ func trial(kind string, rng *rand.Rand) []map[string]any {
 		var with func() int
 		set, init := 0, 0
 		isSync := false
-		if kind == "sync" || (kind == "casduel" && rng.Intn(3) == 0) {
+		if kind == "acc" {
+			// AccessorsWithLock / AccessorsWithReadLock over a plain variable: a register with Get and Set only
+			var cell int
+			get, put := fun.Future[int](func() int { return cell }), fun.Handler[int](func(v int) { cell = v })
+			if rng.Intn(2) == 0 {
+				get, put = adt.AccessorsWithLock(get, put)
+			} else {
+				get, put = adt.AccessorsWithReadLock(get, put)
+			}
+			set, isSync = 1, true
+			a = accReg{get, put}
+			with = func() int { return get() }
+		} else if kind == "sync" || (kind == "casduel" && rng.Intn(3) == 0) {
 			s := adt.NewSynchronized(0)
 			if rng.Intn(2) == 0 {
 				init = 1 + rng.Intn(3)
@@ -202,6 +225,9 @@ func trial(kind string, rng *rand.Rand) []map[string]any {
 		}
 		lg.add(map[string]any{"ev": "config", "kind": k, "v": init, "set": set, "f": "none"})
 		ops := []string{"get", "set", "swap", "cas", "cas", "cas", "with"}
+		if kind == "acc" {
+			ops = []string{"get", "set", "set", "with"}
+		}
 		if kind == "casduel" {
 			// everybody tries to move the register away from the same value: exactly one may win
 			callers, rounds, barrier, procs = 2+rng.Intn(3), 1, true, 6
